@@ -833,6 +833,11 @@ func (c *Conn) advanceFrame() (int, error) {
 			return noFrame, err
 		}
 		c.readRemaining = int64(binary.BigEndian.Uint64(p))
+		// RFC 6455 5.2: the most significant bit of the 64 bits length must be 0.
+		if c.readRemaining < 0 {
+			c.readRemaining = 0
+			return noFrame, c.handleProtocolError("invalid 64 bits frame length")
+		}
 	}
 
 	// 4. Handle frame masking.
@@ -855,7 +860,8 @@ func (c *Conn) advanceFrame() (int, error) {
 	if frameType == continuationFrame || frameType == TextMessage || frameType == BinaryMessage {
 
 		c.readLength += c.readRemaining
-		if c.readLimit > 0 && c.readLength > c.readLimit {
+		// A negative length is the overflow of a message which certainly exceeds the limit.
+		if c.readLimit > 0 && (c.readLength > c.readLimit || c.readLength < 0) {
 			c.WriteControl(CloseMessage, FormatCloseMessage(CloseMessageTooBig, ""), time.Now().Add(writeWait))
 			return noFrame, ErrReadLimit
 		}
